@@ -685,9 +685,7 @@ Definition run_inner_state (feat : features) (env : bytes -> option bytes) (o : 
            (name : option bytes) (argv : list bytes) : sres * state :=
   let '(st, amb) := initial_state o name argv in
   match amb with
-  | Some (ix, short) =>
-    if f_autocomplete feat then (SFail (FStderr (MsgAmbiguity ix short)), st)
-    else run_sub env o st
+  | Some (ix, short) => (SFail (FStderr (MsgAmbiguity ix short)), st)
   | None => run_sub env o st
   end.
 
